@@ -1,0 +1,49 @@
+//go:build verif
+
+package fetcher
+
+// Contracts checked by /verif's govc.  Comments only; build tag "verif".
+
+//@ unit fetcher
+//@
+//@ extern (immutable.Option[string]).HasValue(o) -> (b)
+//@   pure
+//@   opt alias=optStrHas sig=immutable.Option[string]:bool
+//@ extern (immutable.Option[string]).Value(o) -> (v)
+//@   pure
+//@   opt alias=optStrVal sig=immutable.Option[string]:string
+//@ extern immutable.None[string]() -> (o)
+//@   ensures !optStrHas(o)
+//@ // the decision of the access-control system for (identity, collection, permission, document) in the current state
+//@ extern permission.CheckAccessOfDocOnCollectionWithACP(ctx, identity, acp, col, perm, docID) -> (ok, e)
+//@   pure
+//@   opt alias=acpAllows,acpErr sig=iface,immutable.Option[identity.Identity],iface,iface,iface,string:bool,error
+//@ // inner fetchers do not write the fields of the fetcher that wraps them (assumed)
+//@ extern (fetcher.fetcher).NextDoc(f) -> (d, e)
+//@ extern (fetcher.fetcher).GetFields(f) -> (d, e)
+//@ extern (fetcher.fetcher).Close(f) -> (e)
+//@
+//@ // ===== C10: a document is only handed on after the access-control system allowed reading it ==========
+//@ func (*permissionedFetcher).NextDoc -> (r, err)
+//@   ensures err == nil && optStrHas(r) ==> acpAllows(f.ctx, f.identity, f.documentACP, f.col, box(0), optStrVal(r)) && acpErr(f.ctx, f.identity, f.documentACP, f.col, box(0), optStrVal(r)) == nil
+//@   tags C10
+//@ func newPermissionedFetcher -> (r)
+//@   ensures r != nil && r.identity == identity && r.documentACP == documentACP && r.col == col && r.fetcher == fetcher && r.ctx == ctx
+//@   tags C10
+//@
+//@ // the guard sits above every document source (prefix, index, deleted) and below the filter
+//@ extern (immutable.Option[dac.DocumentACP]).HasValue(o) -> (b)
+//@   pure
+//@   opt alias=optACPHas sig=immutable.Option[dac.DocumentACP]:bool
+//@ extern (immutable.Option[dac.DocumentACP]).Value(o) -> (v)
+//@   pure
+//@ extern (immutable.Option[client.IndexDescription]).* -> (v)
+//@   pure
+//@ func newFilteredFetcher -> (r)
+//@   ensures r != nil && r.fetcher == fetcher
+//@   tags C10
+//@ func (*wrappingFetcher).Start -> (err)
+//@   assert before call#1 newPermissionedFetcher: arg1 == f.identity && arg3 == f.col
+//@   assert before call#1 newFilteredFetcher: optACPHas(f.documentACP) ==> hastype(arg4, *permissionedFetcher)
+//@   ensures err == nil && optACPHas(f.documentACP) ==> hastype(f.fetcher, *permissionedFetcher) || (hastype(f.fetcher, *filteredFetcher) && hastype(as(f.fetcher, *filteredFetcher).fetcher, *permissionedFetcher))
+//@   tags C10
